@@ -36,6 +36,8 @@ inductive Cmd where
   | chord (body : List Cmd) (len : Option LenExpr) (q v : Option Int)
   | track (n : Nat) | channel (n : Int) | voice (n : Int) | keyShift (k : Int) | trackKey (k : Int)
   | keyFlag (flag : Int) (semis : List Nat)
+  | trackSync
+  | play (parts : List (List Cmd))
 
 structure NoteEv where
   time : Int
@@ -174,6 +176,18 @@ def sem : Cmd → St → St
   | .trackKey k, s => let t := s.t; s.setT { t with key := k }
   | .keyFlag flag semis, s =>
     { s with keyflag := (List.range 12).map (fun i => if semis.contains i then flag else 0) }
+  | .trackSync, s => { s with tr := s.tr.map (fun t => { t with tp := s.t.tp }) }
+  | .play parts, s =>
+    let r := playParts parts 1 s.t.tp s.t.tp s
+    { r.2 with tr := r.2.tr.map (fun t => { t with tp := r.1 }), cur := s.cur }
+/-- PLAY: part i on track i from the common start; returns the latest end and the state -/
+def playParts : List (List Cmd) → Nat → Int → Int → St → Int × St
+  | [], _, _, last, s => (last, s)
+  | p :: ps, i, start, last, s =>
+    let s1 := { s with tr := growTracks s.tb i (i + 1) s.tr, cur := i }
+    let s2 := s1.setT { s1.t with tp := start }
+    let s3 := semL p s2
+    playParts ps (i + 1) start (if s3.t.tp > last then s3.t.tp else last) s3
 def semL : List Cmd → St → St
   | [], s => s
   | c :: cs, s => semL cs (sem c s)
